@@ -63,8 +63,9 @@ class ScriptedRand:
         return torch.tensor(v, dtype=torch.float32).reshape(size if size else ())
 
 
-def hx(x):
-    return float(x).hex()
+def eff_prios(op):
+    """the Python floats update_priorities sees through priority.item() (float32 tensors round the value)"""
+    return [f32(p) if op[3] == "f32" else float(p) for p in op[2]]
 
 
 # -------------------------------------------------------------------------------- Coq literals
@@ -107,6 +108,7 @@ class C11(vlib.Driver):
                    "(float32 draws); the one-ulp descent into a zero leaf needs a draw within 2^-53 of 1 (Example retrieve_float_gap)",
                    "priorities are finite positive floats; float('inf') of the min tree is represented by None in the model"]
     shard = 40
+    coq_dirs = ("C09",)      # C11/Joint.v composes the priority model with the C09 ring buffer
 
     # ------------------------------------------------------------------ generation
     def _draw(self, rng):
@@ -254,35 +256,39 @@ class C11(vlib.Driver):
         orig = torch.rand
         try:
             for op in case["ops"]:
-                rec = {"raised": False, "sample": None, "tags": None}
-                if op[0] == "add":
-                    tags = list(range(nxt, nxt + op[1])); nxt += op[1]
-                    rec["tags"] = tags
-                    buf.add(make_transition(tags))
-                elif op[0] == "update":
-                    dt = torch.float32 if op[3] == "f32" else torch.float64
-                    try:
-                        buf.update_priorities(torch.tensor(op[1], dtype=torch.int64), torch.tensor(op[2], dtype=dt))
-                    except AssertionError:
-                        rec["raised"] = True
-                elif op[0] == "sample":
-                    src = ScriptedRand(op[1])
-                    torch.rand = src
-                    try:
-                        s = buf.sample(len(op[1]), beta=case["beta"])
-                    except AssertionError:
-                        rec["raised"] = True
-                        s = None
-                    finally:
-                        torch.rand = orig
-                    if s is not None:
-                        if src.pos != len(op[1]):
-                            raise RuntimeError(f"sample({len(op[1])}) consumed {src.pos} uniform draws")
-                        rec["sample"] = {"idx": [int(i) for i in s["idxs"].reshape(-1)],
-                                         "w": [float(w) for w in s["weights"].reshape(-1)],
-                                         "rows": row_tags(s)}
-                else:
-                    buf.clear()
+                rec = {"raised": False, "sample": None, "tags": None, "exc": None}
+                try:
+                    if op[0] == "add":
+                        tags = list(range(nxt, nxt + op[1])); nxt += op[1]
+                        rec["tags"] = tags
+                        buf.add(make_transition(tags))
+                    elif op[0] == "update":
+                        dt = torch.float32 if op[3] == "f32" else torch.float64
+                        try:
+                            buf.update_priorities(torch.tensor(op[1], dtype=torch.int64), torch.tensor(op[2], dtype=dt))
+                        except AssertionError:
+                            rec["raised"] = True
+                    elif op[0] == "sample":
+                        src = ScriptedRand(op[1])
+                        torch.rand = src
+                        try:
+                            s = buf.sample(len(op[1]), beta=case["beta"])
+                        except AssertionError:
+                            rec["raised"] = True
+                            s = None
+                        finally:
+                            torch.rand = orig
+                        if s is not None:
+                            if src.pos != len(op[1]):
+                                raise RuntimeError(f"sample({len(op[1])}) consumed {src.pos} uniform draws")
+                            rec["sample"] = {"idx": [int(i) for i in s["idxs"].reshape(-1)],
+                                             "w": [float(w) for w in s["weights"].reshape(-1)],
+                                             "rows": row_tags(s)}
+                    else:
+                        buf.clear()
+                except (AssertionError, ArithmeticError, RecursionError, LookupError, TypeError, ValueError) as e:
+                    # the implementation itself failed on a legitimate operation: an observation, not a harness fault
+                    rec["exc"] = f"{type(e).__name__}: {e}"[:300]
                 rec["len"] = len(buf)
                 rec["ptr"] = int(buf.tree_ptr)
                 rec["maxp"] = float(buf.max_priority)
@@ -291,12 +297,21 @@ class C11(vlib.Driver):
                 rec["min"] = [None if x == INF else float(x) for x in buf.min_tree.tree]      # None = float("inf")
                 rec["ranges"] = []
                 for a, b in case.get("ranges", {}).get(str(len(trace)), []):
-                    mv = float(buf.min_tree.min(a, b))
-                    rec["ranges"].append([a, b, float(buf.sum_tree.sum(a, b)), None if mv == INF else mv])
-                rec["sum_root"] = float(buf.sum_tree.sum())
-                mr = float(buf.min_tree.min())
+                    try:
+                        mv = float(buf.min_tree.min(a, b))
+                        rec["ranges"].append([a, b, float(buf.sum_tree.sum(a, b)), None if mv == INF else mv])
+                    except (ArithmeticError, RecursionError, LookupError, TypeError, ValueError, AssertionError) as e:
+                        rec["exc"] = f"range query ({a},{b}): {type(e).__name__}: {e}"[:300]
+                try:
+                    rec["sum_root"] = float(buf.sum_tree.sum())
+                    mr = float(buf.min_tree.min())
+                except (ArithmeticError, RecursionError, LookupError, TypeError, ValueError) as e:
+                    rec["exc"] = f"sum()/min(): {type(e).__name__}: {e}"[:300]
+                    rec["sum_root"], mr = float("nan"), float("nan")
                 rec["min_root"] = None if mr == INF else mr
                 trace.append(rec)
+                if rec["exc"]:
+                    break                 # the state after a failed operation is not meaningful
         finally:
             torch.rand = orig
         return {"trace": trace}
@@ -328,8 +343,7 @@ class C11(vlib.Driver):
                 ops.append(f"{pre}Add {op[1]}")
             elif op[0] == "update":
                 ps = []
-                for i, p in zip(op[1], op[2]):
-                    p = float(p)
+                for i, p in zip(op[1], eff_prios(op)):
                     fp = self._floor(p)
                     tabA[fp] = fp ** alpha
                     ps.append(f"({i}, {num(p)})")
@@ -386,6 +400,12 @@ class C11(vlib.Driver):
 
         for oi, (op, rec) in enumerate(zip(case["ops"], obs["trace"])):
             c = rec["tcap"]
+            if rec.get("exc"):
+                V("raised", f"the operation failed with {rec['exc']}")
+                break
+            if op[0] == "update" and rec["raised"] != any(not (0 <= i < m) for i in op[1]):
+                V("update-raised", f"update_priorities({op[1]}, ...) raised={rec['raised']} with max_size {m}")
+                break
             st, mt = rec["sum"], [INF if x is None else x for x in rec["min"]]
             min_root = INF if rec["min_root"] is None else rec["min_root"]
             if op[0] == "add":
@@ -395,10 +415,10 @@ class C11(vlib.Driver):
                     cursor = (cursor + 1) % m
                     n_added += 1
             elif op[0] == "update":
-                for i, p in zip(op[1], op[2]):
+                for i, p in zip(op[1], eff_prios(op)):
                     if not (0 <= i < m):
                         break
-                    fp = max(float(p), FLOOR)
+                    fp = max(p, FLOOR)
                     leaf_want[i] = fp ** alpha
                     maxp = max(maxp, fp)
             elif op[0] == "clear":
@@ -532,7 +552,7 @@ class C11(vlib.Driver):
             for a, b, _, _ in rec.get("ranges", []):
                 labs.append("range-query:" + ("full" if (a == 0 and b in (0, rec["tcap"])) else "single-leaf" if b == a + 1 else "partial"))
             if op[0] == "update":
-                if any(p < FLOOR for p in op[2]):
+                if any(p < FLOOR for p in eff_prios(op)):
                     labs.append("branch:priority-floored")
                 if len(set(op[1])) < len(op[1]):
                     labs.append("branch:repeated-index")
